@@ -80,7 +80,12 @@ funclit 1 in (dht *DHT) FindProvidersAsync(ctx context.Context, key cid.Cid, cou
   ensures [internal-bound] imp(!zeroCount, $sent <= $count0)
   ensures [closed] tagged("closed:outCh")
   loop 0 invariant found != nil && $sent >= 0 && (zeroCount || ($sent + count == $count0 && count >= 0))
-  ghost at send(outCh): $sent = $sent + 1; assert(!has(found, pi.ID) && $msg == pi)
+  # every forwarded provider is remembered ($fwd = ids sent so far), for every
+  # count including 0, so that no source can make the merge repeat a peer
+  ghostvar $fwd map[peer.ID]bool = any
+  ghost at entry: $fwd = mapcomp(x, peer.ID, false)
+  loop 0 invariant allT(x, peer.ID, imp($fwd[x], has(found, x)))
+  ghost at send(outCh): $sent = $sent + 1; assert(!has(found, pi.ID) && !$fwd[pi.ID] && $msg == pi); $fwd[pi.ID] = true
   ghostvar $cancelled bool = false
   ensures [request-context-cancelled-on-exit] $cancelled
   ghost at call(cancel): $cancelled = true
